@@ -805,6 +805,11 @@ def c17(tier):
             "{ RxV=RsV<<RtV; }", "{ RxV=RsV<RtV; }", "{ RxV=RsV<=RtV; }", "{ RxV=RsV<<1<=RtV; }", "{ RxV=RsV>>1>=RtV; }",
             "{ RxV=RsV>RtV>>1; }", "{ RxV = RsV --- RtV; }" if False else "{ RxV = RsV - - - RtV; }", "{ RxV = RsV++ + RtV; }",
             "{ RxV = RsV+ +RtV; }", "{ RxV = 0x10+RsV; }", "{ RxV = 0x1f&RsV; }", "{ RxV = 10U+RsV; }", "{ RxV = 1LL<<RsV; }"]
+    # every binary operator without blanks between operands of every token kind (a terminal must not swallow its neighbours)
+    for op in C17_BIN:
+        for l, r in [("1", "RsV"), ("RsV", "1"), ("RsV", "RtV"), ("3", "clz32(RtV)"), ("(RsV)", "(RtV)"), ("siV", "RsV"), ("a", "b"), ("0x1f", "b"),
+                     ("7U", "a"), ("a", "1LL")]:
+            out.append(f"{{ {d} RddV = {l}{op}{r}; }}")
     return out
 
 
